@@ -133,6 +133,27 @@ RAssign(fs, key, s, v) ==
             fs1 == [fs EXCEPT ![tgt] = RTerm([fs[tgt] EXCEPT !.v = v])]
         IN RSeqOf(fs1, Idx(fs) \ drop)
 
+\* the statement's clause "every byte before it (including the field's own comment lines when it is
+\* replaced) and every byte after it is unchanged", as a law of assignment to a PRESENT field that
+\* does not depend on how RAssign computes its result: the instance in the target's place keeps name,
+\* spelling and comment blob and carries the new value; the instances in front of it are untouched;
+\* behind it only the other occurrences of the name disappear (plain name), nothing else.  A comment
+\* blob stands for ANY block of comment lines (text lines, lines made of "#" and blanks only, in any
+\* position): the binding draws such blocks, the blob identity is what must survive the replacement.
+RAssignLawsFor(assign(_, _, _, _), fs, key, s, v) ==
+   LET occ  == ROcc(fs, key.n)
+       tgt  == IF key.i = NoIdx THEN occ[1] ELSE occ[key.i + 1]
+       out  == assign(fs, key, s, v)
+       keep == {j \in Idx(fs) : j > tgt /\ (key.i # NoIdx \/ fs[j].n # key.n)}
+   IN /\ Len(out) = tgt + Cardinality(keep)
+      /\ \A j \in 1..(tgt - 1) : out[j] = fs[j]
+      /\ out[tgt].n = fs[tgt].n /\ out[tgt].s = fs[tgt].s /\ out[tgt].c = fs[tgt].c /\ out[tgt].v = v
+      /\ SubSeq(out, tgt + 1, Len(out)) = RSeqOf(fs, keep)
+ReplaceLawsOf(assign(_, _, _, _), fs) ==
+   \A n \in Names : RHas(fs, n) =>
+      \A i \in {NoIdx} \cup (0..(Len(ROcc(fs, n)) - 1)) : \A s \in {"U", "L"} : \A v \in NewVals :
+         RAssignLawsFor(assign, fs, [n |-> n, i |-> i], s, v)
+
 \* ------------------------------------------------------------------ document level
 ParaPos    == RSeqOf([j \in Idx(doc) |-> j], {j \in Idx(doc) : doc[j].t = "p"})   \* positions of paragraphs
 NParas     == Len(ParaPos)
@@ -234,6 +255,28 @@ AppendPara(n) ==
       ELSE Ok(doc \o (IF doc[Len(doc)].t = "s" THEN <<np>> ELSE <<MkSep(NewSep), np>>))
    /\ Edge("append", <<n>>)
 
+\* ---- C10: REFUSED document-level calls as ordinary history steps.  A paragraph that already
+\* belongs to a file - w = 0: a paragraph of ANOTHER file; w >= 1: paragraph number w of THIS
+\* document, e.g. the one an earlier step inserted ("the same paragraph twice") - cannot be linked
+\* in again: append, and insert where it degenerates into append (empty document, index past the
+\* last paragraph), raise ValueError and change NOTHING - whatever part of the work (terminating
+\* the last line, separating newline) a successful call would have done first.  insert in front of
+\* an existing paragraph: WHETHER the call is refused is unspecified (the statement is silent and
+\* the code has no ownership check on that path); if it is refused, nothing changed; if it is
+\* accepted the document has left the model (one paragraph linked twice) and the binding ends the
+\* history there.  RefusedLeaves is the identity; a negative control overrides it.
+RefusedLeaves(d) == d
+OwnedAnchored(idx) == doc # <<>> /\ idx < NParas
+AppendOwned(w) ==
+   /\ doc' = RefusedLeaves(doc) /\ res' = "ValueError"
+   /\ Edge("appendo", <<w>>)
+InsertOwned(idx, w) ==
+   /\ doc' = RefusedLeaves(doc)
+   /\ res' = (IF OwnedAnchored(idx) THEN "ValueErrorOrAccepted" ELSE "ValueError")
+   /\ Edge("inserto", <<idx, w>>)
+\* owners worth exploring: another file, the first and the last paragraph of this document
+OwnedSrc == {0, 1, NParas} \cap (0..NParas)
+
 \* ------------------------------------------------------------------ behaviours
 \* keys worth exploring: every plain name; every valid (name, i) of a duplicated name; and for the
 \* smallest name also (name, 0) when it is unique or absent and one index past the range
@@ -269,6 +312,8 @@ Next == \/ \E p \in 1..NParas :
                 \/ ("sortby" \in Ops /\ \E kt \in SortKeyTabs : SortBy(p, kt))
         \/ \E n \in Names : \/ ("append" \in Ops /\ AppendPara(n))
                              \/ ("insert" \in Ops /\ \E idx \in 0..NParas : InsertPara(idx, n))
+        \/ ("appendo" \in Ops /\ \E w \in OwnedSrc : AppendOwned(w))
+        \/ ("inserto" \in Ops /\ \E idx \in 0..NParas, w \in OwnedSrc : InsertOwned(idx, w))
 
 Spec == Init /\ [][Next]_dvars
 DocView == doc
@@ -290,6 +335,9 @@ ErrAtomic == [][res' \notin {"ok"} /\ res' \notin {ToString(x) : x \in 1..200} =
 \* moves and sorting only permute: no original blob is ever duplicated
 NoBlobDuplication ==
    \A b \in 1..99 : CountIn(doc, LAMBDA e : e.v = b) <= 1
+\* every assignment to a present field of every reachable paragraph obeys the replacement laws
+\* (C05: the replaced field keeps its place, its spelling and its own comment lines)
+ReplaceLaws == \A p \in 1..NParas : ReplaceLawsOf(RAssign, Para(p).fs)
 \* original comments are never duplicated either and stay with a field of the same name
 CommentsStay ==
    [][\A x \in Fields(doc') : Inst(doc', x).c # 0 =>
